@@ -310,6 +310,91 @@ impl GraphModel {
         best
     }
 
+    // ---- reference renderer of the skeleton (which template an include / extends reaches is
+    // part of the property: exact names first, then prefixes in order)
+
+    fn block_text(&self, owner: &str, depth: usize, comp_depth: usize) -> Result<String, String> {
+        // lineage of `b` from owner's perspective: owner's definition, then ancestors while the
+        // previous level calls super()
+        let mut chain: Vec<String> = vec![owner.to_string()];
+        chain.extend(self.ancestors(owner));
+        let mut levels: Vec<&String> = Vec::new();
+        for t in &chain {
+            levels.push(t);
+            if !self.nodes[t].super_call {
+                break;
+            }
+        }
+        // innermost (last level) first, wrapped outwards
+        let mut inner: Option<String> = None;
+        let last_has_super = self.nodes[*levels.last().unwrap()].super_call;
+        if last_has_super {
+            // the topmost definition calls super() with nothing above it
+            return Err("Tried to use super() in the top level block".to_string());
+        }
+        for t in levels.iter().rev() {
+            let node = &self.nodes[*t];
+            let mut out = format!("[{}.b", t);
+            for (target, p) in &node.incs {
+                if *p == Place::Block {
+                    out.push_str(&self.include_text(target, depth + 1, comp_depth)?);
+                }
+            }
+            if node.incs.iter().any(|(_, p)| *p == Place::Component) {
+                if comp_depth + 1 > 20 {
+                    return Err("Maximum render recursion depth for components exceeded.".to_string());
+                }
+                let k = comp_name(t);
+                out.push_str(&format!("({}", k));
+                for (target, p) in &node.incs {
+                    if *p == Place::Component {
+                        out.push_str(&self.include_text(target, depth + 1, comp_depth + 1)?);
+                    }
+                }
+                out.push(')');
+            }
+            if node.super_call {
+                out.push_str(inner.as_deref().unwrap_or(""));
+            }
+            out.push(']');
+            inner = Some(out);
+        }
+        Ok(inner.unwrap_or_default())
+    }
+
+    fn include_text(&self, target: &str, depth: usize, comp_depth: usize) -> Result<String, String> {
+        let r = self.resolve(target).ok_or_else(|| format!("unresolved include {}", target))?;
+        self.chunk_text(&r, &r, depth, comp_depth)
+    }
+
+    /// `body_of`'s chunk interpreted with `owner`'s block lineage
+    fn chunk_text(&self, body_of: &str, owner: &str, depth: usize, comp_depth: usize) -> Result<String, String> {
+        if depth > 300 {
+            return Err("unbounded".to_string());
+        }
+        let node = &self.nodes[body_of];
+        let mut out = format!("<{}|", body_of);
+        for (target, p) in &node.incs {
+            if *p == Place::Body {
+                out.push_str(&self.include_text(target, depth + 1, comp_depth)?);
+            }
+        }
+        out.push_str(&self.block_text(owner, depth + 1, comp_depth)?);
+        out.push('>');
+        Ok(out)
+    }
+
+    /// What `render(name)` must produce: the root ancestor's body with `name`'s block lineage.
+    pub fn render(&self, name: &str) -> Result<String, String> {
+        let anc = self.ancestors(name);
+        let root = anc.last().cloned().unwrap_or_else(|| name.to_string());
+        self.chunk_text(&root, name, 0, 0)
+    }
+
+    pub fn render_block(&self, name: &str) -> Result<String, String> {
+        self.block_text(name, 0, 0)
+    }
+
     pub fn has_component_cycle(&self) -> bool {
         let names: Vec<String> = self.nodes.keys().cloned().collect();
         !has_cycle(&names, &self.effective_edges(false)) && has_cycle(&names, &self.effective_edges(true))
@@ -419,6 +504,45 @@ pub fn check_acceptance(cand: &Model, ok: bool, err: Option<&tera::Error>, i: us
     }
     if !matches_some {
         out.violations.push(Violation::new("C11", "wrong-error-for-invalid-graph", format!("op {}: model finds {:?} but the error is {}: {}", i, v, kind_tag(e.kind()), crate::engine::trunc(&format!("{}", e)))));
+    }
+}
+
+/// Output refinement: every template of an accepted, renderable state renders to exactly what the
+/// skeleton's reference renderer says (or fails where it fails).
+pub fn check_outputs(model: &Model, t: &tera::Tera, i: usize, stats: &mut Stats, out: &mut Outcome) {
+    let g = GraphModel::from_model(model);
+    let ctx = tera::Context::new();
+    for name in model.tpls.keys() {
+        stats.inc("evaluations_graph_renders");
+        let want = g.render(name);
+        let got = match crate::common::catch(|| t.render(name, &ctx)) {
+            Ok(r) => r,
+            Err(p) => {
+                out.violations.push(Violation::new("C07", "panic-in-render", format!("{}: {}", name, p)));
+                continue;
+            }
+        };
+        match (&want, &got) {
+            (Ok(w), Ok(g2)) => {
+                if w != g2 {
+                    out.violations.push(Violation::new(
+                        "C11",
+                        "render-differs-from-graph-model",
+                        format!("after op {}: render({}) = {:?}, the reference renderer (exact names first, then prefixes in order) gives {:?}", i, name, crate::engine::trunc(g2), crate::engine::trunc(w)),
+                    ));
+                }
+            }
+            (Err(_), Err(_)) => {}
+            (Ok(w), Err(e)) => out.violations.push(Violation::new("C11", "render-fails-where-graph-model-renders", format!("after op {}: render({}) = Err({}), model = {:?}", i, name, crate::engine::trunc(&format!("{}", e)), crate::engine::trunc(w)))),
+            (Err(why), Ok(g2)) => out.violations.push(Violation::new("C11", "render-succeeds-where-graph-model-fails", format!("after op {}: render({}) = {:?}; model: {}", i, name, crate::engine::trunc(g2), why))),
+        }
+        if let (Ok(wb), Ok(gb)) = (g.render_block(name), crate::common::catch(|| t.render_block(name, "b", &ctx))) {
+            if let Ok(gb) = gb {
+                if want.is_ok() && wb != gb {
+                    out.violations.push(Violation::new("C11", "render_block-differs-from-graph-model", format!("after op {}: render_block({}, b) = {:?}, model {:?}", i, name, crate::engine::trunc(&gb), crate::engine::trunc(&wb))));
+                }
+            }
+        }
     }
 }
 
@@ -570,8 +694,20 @@ pub fn generate(seed: u64, tier: &str, property: &str) -> RegScenario {
     for _ in 0..n_mut {
         let x = rng.below(n);
         let mut s = specs[x].clone();
-        let kind = rng.below(12);
+        let kind = rng.below(13);
         let label = match kind {
+            12 if prefixes.len() >= 2 => {
+                // the same base name under the other prefix: a short-name reference must keep
+                // resolving to the first prefix in configuration order
+                let cands: Vec<&String> = names.iter().filter(|nm| prefixes.iter().any(|p| nm.starts_with(p.as_str()))).collect();
+                if !cands.is_empty() {
+                    let full = rng.pick(&cands);
+                    let (pi, short) = prefixes.iter().enumerate().find_map(|(i, p)| full.strip_prefix(p.as_str()).map(|s| (i, s.to_string()))).unwrap();
+                    let other = &prefixes[(pi + 1) % prefixes.len()];
+                    s = GSpec { name: format!("{}{}", other, short), extends: None, incs: vec![], super_call: false };
+                }
+                "other-prefix-twin"
+            }
             0 => {
                 s.incs.push((refer(&names[x], &rng, &prefixes), place(&rng)));
                 "include-self-loop"
